@@ -109,13 +109,19 @@ class Transaction:
             # while this transaction is open deletes it (it may well be older
             # than the grace period) and the commit then references a missing
             # file. append_data() has already registered its own file.
+            own_file = self._marker_path_for(data_file.file_path) in self._inflight_markers
             if (
-                self._marker_path_for(data_file.file_path) not in self._inflight_markers
+                not own_file
                 and self._marker_path_for(data_file.file_path, prebuilt=True) not in self._inflight_markers
             ):
                 self._register_inflight(data_file.file_path, prebuilt=True)
             if not self.file_manager.validate_file_exists(data_file.file_path):
                 raise FileNotFoundError(f"Data file does not exist: {data_file.file_path}")
+            if not own_file:
+                # The caller wrote this file; nothing says it was ever fsynced.
+                # The pointer must not advance over content that a power loss
+                # can still take away.
+                self.file_manager.storage.persist_existing_file(data_file.file_path.lstrip("/"))
             if table_schema is not None:
                 self._validate_file_schema(data_file, table_schema)
 
